@@ -178,8 +178,13 @@ def run_root(E, body, contract=None):
     b0 = E.stats['blocks']
     try:
         st, gs, args = setup(E, body)
-        if contract == 'full-hit-only':
-            pass
+        if contract in ('not-full', 'no-append'):
+            for ms in st.maps.values():
+                if ms.borrowed and not ms.phantom:
+                    if contract == 'not-full':
+                        st.zone.add_lt(ms.len, ms.cap)
+                    else:
+                        st.zone.add_eq(ms.len, ms.cap)
         # keep the parameter values alive for the exit checks: frame 0 holds them
         is_drop = bool(body.impl and body.impl.get('trait') == 'core::ops::drop::Drop')
         if is_drop:
@@ -221,9 +226,8 @@ def analyse(facts, only=None, verbose=False):
             continue
         if only and not any(o in bid for o in only):
             continue
-        contract = 'append-bound' if (b.unsafe and b.name == 'insert_unchecked') else None
         try:
-            rr = run_root(E, b, contract)
+            rr = run_root(E, b, None)
         except Exception as e:   # a crash of the analyser is a failure of the check, not a pass
             E.violate('SHAPE', 'unproven', 'crash', '%s: %s' % (type(e).__name__, e))
             rr = RootResult(b)
